@@ -38,7 +38,8 @@ struct Wire {
     payload: Vec<u8>,
     /// per frame (fragment): deliveries by the link
     frame_deliveries: Vec<u32>,
-    app_deliveries: u32,
+    /// deliveries to the application, per receiving socket (index in the receiver's socket list)
+    app_deliveries: [u32; 3],
     t: i64,
 }
 
@@ -132,6 +133,17 @@ pub fn run(tape: &mut Tape, props: Props, thorough: bool, trace_on: bool) -> Out
             );
             socks.push((node.sockets.add(s), p, VecDeque::new()));
         }
+        // a third socket bound to the same protocol as the first: it never sends, and every packet the first one
+        // receives is due to it as well
+        {
+            let s = raw::Socket::new(
+                Some(if v6 { IpVersion::Ipv6 } else { IpVersion::Ipv4 }),
+                Some(IpProtocol::from(PROTOS[0])),
+                raw::PacketBuffer::new(vec![raw::PacketMetadata::EMPTY; 8], vec![0u8; rx_bytes]),
+                raw::PacketBuffer::new(vec![raw::PacketMetadata::EMPTY; 1], vec![0u8; 64]),
+            );
+            socks.push((node.sockets.add(s), PROTOS[0], VecDeque::new()));
+        }
         sides.push(Side { node, view, addr: cfg.addrs[0].0, socks, wire: vec![], frag: None });
     }
     let lossy = tape.draw(3) == 2;
@@ -170,7 +182,7 @@ fn on_tx(c: &mut C, i: usize, raw: &[u8]) -> Result<Option<(usize, usize)>, Viol
                     return Err(v("C09.raw/tx-new-datagram-before-previous-complete", "tx", format!("node {} started fragmented datagram ident {} while another one was still incomplete on the wire", name, ident)));
                 }
                 let w = c.s[i].wire.len();
-                c.s[i].wire.push(Wire { src: ip.src, dst: ip.dst, proto: ip.proto, payload: vec![], frame_deliveries: vec![0], app_deliveries: 0, t: c.now });
+                c.s[i].wire.push(Wire { src: ip.src, dst: ip.dst, proto: ip.proto, payload: vec![], frame_deliveries: vec![0], app_deliveries: [0; 3], t: c.now });
                 c.s[i].frag = Some((ident, w, ip.payload.clone(), false));
                 (None, w, 0)
             } else {
@@ -194,7 +206,7 @@ fn on_tx(c: &mut C, i: usize, raw: &[u8]) -> Result<Option<(usize, usize)>, Viol
             }
         }
         _ => {
-            c.s[i].wire.push(Wire { src: ip.src, dst: ip.dst, proto: ip.proto, payload: ip.payload.clone(), frame_deliveries: vec![0], app_deliveries: 0, t: c.now });
+            c.s[i].wire.push(Wire { src: ip.src, dst: ip.dst, proto: ip.proto, payload: ip.payload.clone(), frame_deliveries: vec![0], app_deliveries: [0; 3], t: c.now });
             (Some(ip.payload.clone()), c.s[i].wire.len() - 1, 0)
         }
     };
@@ -346,9 +358,9 @@ fn drain(c: &mut C, i: usize) -> Result<(), Violation> {
             };
             let ip = pk.ip.unwrap();
             let peer = &mut c.s[1 - i];
-            let m = peer.wire.iter_mut().find(|w| w.proto == proto && ip.proto == proto && w.src == ip.src && w.dst == ip.dst && w.payload == ip.payload && w.app_deliveries < *w.frame_deliveries.iter().min().unwrap_or(&0));
+            let m = peer.wire.iter_mut().find(|w| w.proto == proto && ip.proto == proto && w.src == ip.src && w.dst == ip.dst && w.payload == ip.payload && w.app_deliveries[k] < *w.frame_deliveries.iter().min().unwrap_or(&0));
             match m {
-                Some(w) => w.app_deliveries += 1,
+                Some(w) => w.app_deliveries[k] += 1,
                 None => {
                     if on {
                         return Err(v(
@@ -466,8 +478,10 @@ fn body(c: &mut C, thorough: bool) -> Result<(), Violation> {
             }
         }
         if !c.lossy && !c.small_rx[1 - i] {
-            if let Some(w) = c.s[i].wire.iter().find(|w| w.app_deliveries != 1) {
-                return Err(v("C09.raw/not-delivered-exactly-once", "rx", format!("loss-free link: the raw packet node {} transmitted at t={} us ({} > {} proto {} with {} payload octets, {} frame(s)) was delivered {} times to the peer's raw socket", name, w.t, w.src, w.dst, w.proto, w.payload.len(), w.frame_deliveries.len(), w.app_deliveries)));
+            // every raw socket of the peer that is bound to the packet's protocol gets its own copy, once
+            let peer_protos: Vec<u8> = c.s[1 - i].socks.iter().map(|s| s.1).collect();
+            if let Some(w) = c.s[i].wire.iter().find(|w| peer_protos.iter().enumerate().any(|(k, p)| (*p == w.proto) != (w.app_deliveries[k] == 1) || w.app_deliveries[k] > 1)) {
+                return Err(v("C09.raw/not-delivered-exactly-once", "rx", format!("loss-free link: the raw packet node {} transmitted at t={} us ({} > {} proto {} with {} payload octets, {} frame(s)) was delivered {:?} times to the peer's raw sockets (bound to protocols {:?})", name, w.t, w.src, w.dst, w.proto, w.payload.len(), w.frame_deliveries.len(), w.app_deliveries, peer_protos)));
             }
         }
     }
